@@ -66,6 +66,70 @@ def r20_1(ctx):
               "execute_all receives the accumulated list")
 
 
+def r20_8(ctx):
+    """every document is executed: inside the per-document loop no path returns to the loop head (`continue`) without passing
+    Executor::execute_all - except on an emptiness test of the *accumulated* list (prepend + own + append test cases), taken after
+    the last part was added. A document without own test cases still runs its prepend / append test cases."""
+    prog = ctx.prog
+    run = _run(prog)
+    o = Origins(run)
+    ex = [bb for bb, t in run.calls() if mname(t) == "Executor::execute_all"]
+    if not ex:
+        raise AnchorError("test::Args::run: no Executor::execute_all call")
+    # the documents loop: outermost natural loop containing the execute_all call
+    loops = []
+    for b_, h_ in run.back_edges():
+        body_, stack_ = {h_, b_}, [b_]
+        while stack_:
+            x_ = stack_.pop()
+            for p_ in run.preds[x_]:
+                if p_ not in body_ and run.dominates(h_, p_):
+                    body_.add(p_)
+                    stack_.append(p_)
+        if all(e in body_ for e in ex):
+            loops.append((h_, b_, body_))
+    if not loops:
+        raise AnchorError("test::Args::run: execute_all is not inside a loop over the documents")
+    head = max(loops, key=lambda x: len(x[2]))[0]
+    tails = sorted({b_ for h_, b_, _ in loops if h_ == head})
+    # the accumulated list and the emptiness tests on it
+    acc = None
+    for l in range(len(run.locals)):
+        if run.lty(l).startswith("std::vec::Vec<scrut::testcase::TestCase") or run.lty(l).startswith("std::vec::Vec<testcase::TestCase"):
+            exts = [cb for cb, ct in mut_calls(run, l) if mname(ct) in ("Extend::extend", "Vec::extend", "Vec::append", "Vec::extend_from_slice")]
+            if len(exts) >= 2:
+                acc = (l, exts)
+    allowed = []
+    if acc is not None:
+        init_s = o.local(acc[0]).show()
+        for sb, st in switches(run):
+            be = bool_edges(run, sb)
+            if be is None:
+                continue
+            tree = cond_tree(run, sb, o)
+            neg = False
+            while tree.kind == "un" and tree.a == "Not":
+                neg, tree = not neg, tree.kids[0]
+            if tree.kind == "call" and method_name(tree.a) in ("Vec::is_empty", "slice::is_empty") and init_s in tree.show() and all(run.dominates(e, sb) for e in acc[1]):
+                allowed.append((sb, be[1] if neg else be[0]))
+    esc = set(run.reachable(head, removed_blocks=ex, removed_edges=allowed))
+    hit = [b_ for b_ in tails if b_ in esc]
+    # name the offending branch: the first conditional inside the loop from which a tail is reachable without execute_all while the other edge is not
+    where = run.loc(hit[0]) if hit else run.where()
+    if hit:
+        for sb, st in switches(run):
+            if sb in esc and run.dominates(head, sb) and all(run.dominates(sb, e) for e in ex):
+                for tg in run.succ(sb):
+                    r2 = set(run.reachable(tg, removed_blocks=ex + [head]))
+                    if any(b_ in r2 for b_ in tails):
+                        where = run.loc(sb)
+    ctx.check(not hit, "every-document-executed", where,
+              "no path through the documents loop skips Executor::execute_all (%d accepted emptiness test(s) on the accumulated list)" % len(allowed),
+              "the documents loop continues with the next document without executing this one: the decision is taken before / independent of the accumulated "
+              "prepend + document + append list, so e.g. a document without own test cases never runs its prepend / append test cases - they get no result "
+              "and a failing one no longer yields exit 50")
+
+
 def _segment_events(f, start, stops, events, cap=3):
     """event-count tuples (each count capped at `cap`) possible on paths from `start` to a stop
     block / return, computed as a forward dataflow over the region with back edges removed (a DAG),
@@ -512,3 +576,4 @@ def run(ctx):
     ctx.run_rule("R20.6", "error discipline in document discovery/reading: no Result from read_dir / read_test_contents / read_file / parse is dropped or logged-and-skipped [E-SITE]", r20_6, floor=10)
     ctx.run_rule("R20.7", "counted failures reach the exit status: every increment of the per-document failed count passes `total += count` before the next document / the exit decision [E-PATH must-pass]", r20_7, floor=3)
     ctx.run_rule("R20.5", "exit mapping: Err(ValidationFailedError) iff count_failed > 0; main: 50 / 1 / SUCCESS; no process::exit [E-SITE, E-TABLE]", r20_5, floor=5)
+    ctx.run_rule("R20.8", "every document is executed: no `continue` in the documents loop bypasses execute_all, except on emptiness of the accumulated prepend+own+append list [E-PATH must-pass]", r20_8, floor=1)
